@@ -170,6 +170,24 @@ EXTRA3 = {
     "C20": " Round 5: sorts of f64-valued slices compare numerically (total_cmp / partial_cmp), never by bit pattern (R7); the tie term handed to the normal approximation is the unconditional result of mann_whitney_tie_term (R8).",
 }
 
+EXTRA4 = {
+    "C01": " Round 6: the page pre-faulting helper runs only inside Slab::new before the slot metadata is initialised (R12).",
+    "C03": " Round 6: also evaluates C01.R12.",
+    "C04": " Round 6: also evaluates C03.R5 (a handle dropped during an unwind still takes the pool lock unconditionally).",
+    "C05": " Round 6: also evaluates C06.R1 (every releasing arm, the disconnect arm included, acquired the sender's accesses).",
+    "C07": " Round 6: a waker taken out of the awaiter cell is woken on every normal path.",
+    "C08": " Round 6: the Drop of every wait future reaches drop_wait exactly once on every path.",
+    "C10": " Round 6: pin readers consult the thread-local table on every path and nothing shared between threads; PinStateMap::set never evicts.",
+    "C11": " Round 6: the cgroup line is never split at every ':' (the path may contain colons).",
+    "C12": " Round 6: thread::current() is not reachable from RefSync::clone; a function that waits on a condition it sets notifies on every return after the wait.",
+    "C13": " Round 6: the region crates never decide from SystemHardware::processors()/all_processors() (quota-limited, not affinity).",
+    "C14": " Round 6: every spawn path ensures the pool's workers before enqueueing; the worker takes one task at a time from the shared queues.",
+    "C15": " Round 6: a consumed activation flag is always followed by the poll of that future.",
+    "C17": " Round 6: the measured loop runs to the exhaustion of the prepared iteration states.",
+    "C19": " Round 6: put_overwrite returns Ok only behind the atomic write.",
+    "C20": " Round 6: a non-finite guard of a parameter dominates every other use of it (R9); Theil-Sen records a slope for every pair (R10).",
+}
+
 PENDING = "static check not implemented yet in this round (planned, see DESIGN.md section 5); not claimed until it exists"
 
 ALL = [f"C{i:02d}" for i in range(1, 21)]
@@ -181,7 +199,7 @@ def main():
         if pid not in CLAIMS:
             continue
         tech, text, note, ref = CLAIMS[pid]
-        text = text + EXTRA.get(pid, "") + EXTRA2.get(pid, "") + EXTRA3.get(pid, "")
+        text = text + EXTRA.get(pid, "") + EXTRA2.get(pid, "") + EXTRA3.get(pid, "") + EXTRA4.get(pid, "")
         note = note + " Names, parameter order and field names of the analysed tree are mapped back to the committed baseline vocabulary (vf/baseline.json) where unambiguous; new private helpers are inlined into their callers before the rules run."
         checks.append({
             "property_id": pid,
